@@ -41,6 +41,7 @@ class Op:
     output: list | None  # None: one-way
     header: Part | None = None
     fault: Part | None = None
+    second_fault: bool = False  # another fault of the operation with the same detail element
     body_ns: str | None = None  # rpc: soap:body namespace
 
 
@@ -171,6 +172,9 @@ class WsdlGen:
                 w.elements.append(f)
                 op.fault = Part("fault", element=f.name)
                 w.features.add("fault")
+                if rng.random() < 0.25:
+                    op.second_fault = True
+                    w.features.add("two-faults-sharing-a-detail-element")
             w.features.add(f"style:{op_style}")
             w.ops.append(op)
         return w
@@ -220,6 +224,8 @@ def render(w: Wsdl) -> dict:
             out.append(message(f"{op.name}Hdr", [op.header]))
         if op.fault:
             out.append(message(f"{op.name}Fault", [op.fault]))
+            if op.second_fault:
+                out.append(message(f"{op.name}Fault2", [op.fault]))
     out.append(f'  <portType name="{w.port_type}">')
     for op in w.ops:
         out.append(f'    <operation name="{op.name}">\n      <input message="tns:{op.name}In"/>')
@@ -227,6 +233,8 @@ def render(w: Wsdl) -> dict:
             out.append(f'      <output message="tns:{op.name}Out"/>')
         if op.fault:
             out.append(f'      <fault name="{op.name}Fault" message="tns:{op.name}Fault"/>')
+            if op.second_fault:
+                out.append(f'      <fault name="{op.name}Fault2" message="tns:{op.name}Fault2"/>')
         out.append("    </operation>")
     out.append("  </portType>")
     bstyle = f' style="{w.binding_style}"' if w.style_on_binding else ""
@@ -241,6 +249,8 @@ def render(w: Wsdl) -> dict:
             out.append(f'      <output>\n        <soap:body use="literal"{body_ns}/>\n      </output>')
         if op.fault:
             out.append(f'      <fault name="{op.name}Fault">\n        <soap:fault name="{op.name}Fault" use="literal"/>\n      </fault>')
+            if op.second_fault:
+                out.append(f'      <fault name="{op.name}Fault2">\n        <soap:fault name="{op.name}Fault2" use="literal"/>\n      </fault>')
         out.append("    </operation>")
     out.append("  </binding>")
     out.append(f'  <service name="{w.service}">\n    <port name="{w.service}Port" binding="tns:{w.binding}">\n      <soap:address location="{xesc(w.location)}"/>\n    </port>\n  </service>\n</definitions>')
